@@ -248,8 +248,15 @@ func c03(env *core.Env, kind string) {
 	if c.Bool("maxpage", 1, 4) {
 		o.Server.MaxListPageSize = 1000
 	}
+	// a registry may give an upload a new id with every chunk: the id to go on with
+	// is the one the writer reports after the data has gone in
+	o.RotatingUploadIDs = c.Bool("backend.rotating-upload-ids", 1, 4)
 	st := buildStack(env, o)
-	direct := newMem(immutable)
+	var direct ociregistry.Interface = newMem(immutable)
+	if o.RotatingUploadIDs {
+		direct = reg.RotatingIDs(direct)
+		env.Probe("c03:backend-rotates-upload-ids")
+	}
 	m := reg.NewModel(immutable)
 	m.StrictCodes = false
 	cfg := reg.GenConfig{
